@@ -160,15 +160,16 @@ pub fn judge_c04(info: &Info, log: &RunLog, rep: &mut Report) {
             rep.violate("sender-success-without-receiver-success", format!("cfg={}", info.knobs[0].shape()), &info.case, w("the sender reported success but the receiver had not reported a successful delivery"));
         }
     }
-    let (t0_idx, _t0_t) = match t0 {
+    let (t0_idx, t0_t) = match t0 {
         Some(x) => x,
         None => {
             rep.count("c04_runs_without_receiver_success");
             return;
         }
     };
-    // the window: until the (first) receive task ends
-    let first_span = d.spans(id, TaskKind::Recv).first().cloned().cloned();
+    // the window: until the receive task that reported the success ends (a reordered link can make an
+    // earlier incarnation end unsuccessfully before the one that delivers starts)
+    let first_span = d.spans(id, TaskKind::Recv).into_iter().filter(|s| s.start_us <= t0_t && s.end_us.map_or(true, |e| e >= t0_t)).last().cloned();
     let win_end = first_span.as_ref().and_then(|s| s.end_us).unwrap_or(u64::MAX);
     // late PDUs that actually reached the open transaction
     let late: Vec<_> = d.arrivals(t.dst, id).into_iter().filter(|a| a.0 > t0_idx && a.1 <= win_end && a.2 != Kind::AckFin).collect();
@@ -513,7 +514,10 @@ pub fn judge_c10(info: &Info, log: &RunLog, rep: &mut Report) {
     let reach_idx = if who == t.dst {
         c_idx
     } else {
-        d.arrivals(t.dst, id).iter().find(|a| matches!(&a.3.payload, PDUPayload::Directive(Operations::EoF(e)) if e.condition != Condition::NoError)).map(|a| a.0).unwrap_or(0)
+        // (an EOF(cancel) that the sender did emit but the link lost for good never reaches the receiver:
+        // whatever the receiver concluded, it concluded before the cancel reached it)
+        let emitted = d.emits(t.src, id).iter().any(|e| matches!(&e.4.payload, PDUPayload::Directive(Operations::EoF(x)) if x.condition != Condition::NoError));
+        d.arrivals(t.dst, id).iter().find(|a| matches!(&a.3.payload, PDUPayload::Directive(Operations::EoF(e)) if e.condition != Condition::NoError)).map(|a| a.0).unwrap_or(if emitted { usize::MAX } else { 0 })
     };
     let concluded_first = d.finished(t.dst, id).first().map(|f| f.2.report.condition != Condition::CancelReceived && f.0 < reach_idx).unwrap_or(false);
     if concluded_first {
